@@ -1,0 +1,25 @@
+// +build verif
+
+/*
+   Verification hooks (build tag "verif"): exported handles on unexported pieces of the
+   consensus package, used only by the external verification harness. Nothing here is
+   compiled into normal builds.
+*/
+
+package consensus
+
+import (
+	"github.com/hashicorp/raft"
+)
+
+// VerifLogStore is the raft log store + stable store backing a RaftNode.
+type VerifLogStore interface {
+	raft.LogStore
+	raft.StableStore
+	Close() error
+}
+
+// VerifNewRaftLog opens the RocksDB-backed raft log store on path.
+func VerifNewRaftLog(path string) (VerifLogStore, error) {
+	return newRaftLog(path)
+}
